@@ -27,8 +27,13 @@ def run(ctx: Ctx):
         raise AnalysisError("C20: GlobalSoftAttention.forward does not call softmax exactly once")
     sm = sms[0]
     e_arg = sm.args[0]
-    fills = [c for c in own_calls(fwd.node) if isinstance(c.func, ast.Attribute) and c.func.attr == "masked_fill" and len(c.args) == 2]
-    wheres = [c for c in own_calls(fwd.node) if call_name(c) == "torch.where" and len(c.args) == 3]
+    # masked selections applied to the SCORES (the receiver derives from self.score(...)); the values are masked separately
+    def on_scores(e):
+        return any(isinstance(c.func, ast.Attribute) and u(c.func) == "self.score" for c in rd.derives(e).calls()) or \
+            any(isinstance(x, ast.Call) and u(x.func) == "self.score" for x in ast.walk(e))
+    fills = [c for c in own_calls(fwd.node) if isinstance(c.func, ast.Attribute) and c.func.attr == "masked_fill" and len(c.args) == 2
+             and on_scores(c.func.value)]
+    wheres = [c for c in own_calls(fwd.node) if call_name(c) == "torch.where" and len(c.args) == 3 and (on_scores(c.args[1]) or on_scores(c.args[2]))]
     ok_fill = False
     detail = None
     for c in fills:
